@@ -191,13 +191,21 @@ def eval_roundtrip(pio, case):
             # history: the directory is re-used; an earlier call wrote a *related* project (same text in another line-ending style, a longer
             # text, other libraries / port): the later call must still leave exactly its own arguments on disk
             prev = case["prev"]
-            pio.write_project(proj, source_variant(case["source"], prev["variant"]), prev["port"], platform=case["platform"], board=case["board"], lib_deps=prev["libs"])
+            try:
+                pio.write_project(proj, source_variant(case["source"], prev["variant"]), prev["port"], platform=case["platform"], board=case["board"], lib_deps=prev["libs"])
+            except Exception as e:  # a registered pair with printable arguments: "always writes"
+                return [{"bucket": f"write_project-raised:{type(e).__name__}", "case": dict(case, kind="roundtrip"), "expected": "project written", "observed": f"earlier call raised {e!r}"}]
             (proj / "other.txt").write_text("user file")
         before = _snapshot(outer)
         kwargs = dict(platform=case["platform"], board=case["board"])
         if case["libs"] is not None or case["pass_none"]:
             kwargs["lib_deps"] = (iter(case["libs"]) if case["as_iter"] else case["libs"]) if case["libs"] is not None else None
-        pio.write_project(proj, case["source"], case["port"], **kwargs)
+        try:
+            pio.write_project(proj, case["source"], case["port"], **kwargs)
+        except Exception as e:  # a registered pair with printable arguments: "always writes"
+            if kwargs.get("lib_deps") is not None and case["as_iter"]:
+                kwargs["lib_deps"] = "<iterator>"
+            return [{"bucket": f"write_project-raised:{type(e).__name__}", "case": dict(case, kind="roundtrip"), "expected": "project written", "observed": f"raised {e!r}"}]
         after = _snapshot(outer)
         rel = os.path.relpath(proj, outer)
         # nothing outside the project directory
